@@ -306,7 +306,17 @@ def gen_history(rng, idx):
                 steps.append(s)
                 base = ("step", len(steps) - 1, "new")
             steps.append(gen_dc(rng, steps, base=base))
-    return {"module": f"c19mod_{idx}", "steps": steps}
+    job = {"module": f"c19mod_{idx}", "steps": steps}
+    if idx % 2 == 1:
+        # every second history goes through ONE decorator object per flag pair (deco = slotted(dict=.., weakref=..); deco(A); deco(B));
+        # most of them ask for the same flags at every step.  (Decided by the index: the random stream is what it was.)
+        job["reuse_decorator"] = True
+        if idx % 8 != 7:
+            first = next((s_ for s_ in steps if "dict" in s_), None)
+            for s_ in steps:
+                if first is not None and "dict" in s_:
+                    s_["dict"], s_["weakref"] = first["dict"], first["weakref"]
+    return job
 
 
 def scenario_jobs(rng):
@@ -688,6 +698,7 @@ def real_history(job):
     exec(PREAMBLE, mod.__dict__)
     steps = job["steps"]
     origs, news, outs = [], [], []
+    decos = {}
     for i, spec in enumerate(steps):
         C, why = materialise(mod, i, spec, origs, news)
         if C is None:
@@ -711,7 +722,14 @@ def real_history(job):
         try:
             with warnings.catch_warnings():
                 warnings.simplefilter("ignore")
-                S = classes.slotted(C, dict=spec["dict"], weakref=spec["weakref"])
+                if job.get("reuse_decorator"):
+                    # one decorator object per flag pair, applied to every class of the history that asks for these flags
+                    key = (spec["dict"], spec["weakref"])
+                    if key not in decos:
+                        decos[key] = classes.slotted(dict=key[0], weakref=key[1])
+                    S = decos[key](C)
+                else:
+                    S = classes.slotted(C, dict=spec["dict"], weakref=spec["weakref"])
             real = {"created": observe(S, C)}
         except BaseException as e:  # noqa: BLE001
             real = {"err": categorize(e)}
